@@ -142,7 +142,8 @@ class Run:
     def audit(self):
         """#print axioms for every theorem of the property's namespace; grep for forbidden constructs"""
         mod = f"Fpdec.Props.{self.prop}"
-        src = f"""import {mod}
+        src = f"""import Lean
+import {mod}
 open Lean Elab Command in
 #eval show CommandElabM Unit from do
   let env ← getEnv
@@ -266,7 +267,7 @@ open Lean Elab Command in
                 self.evals += 1
                 key = req.split(" ", 2)[1] + ":" + sig
                 self.sig_hist[key] = self.sig_hist.get(key, 0) + 1
-                if sig and not self.trivial(req, out):
+                if (sig or req.startswith('threads')) and not self.trivial(req, out):
                     self.nontrivial.add(req)
             if not self.match(spec, out):
                 kf = self.known(req, out)
